@@ -153,6 +153,7 @@ class RecvWorld(World):
         self.N = sc.get("N")
         self.W = sc.get("W")
         self.never: List[asyncio.Future] = []
+        self.next_k = 0
         self.results: Dict[str, Any] = {}
         self.saved: List[Tuple[int, Any]] = []
         self.kicked: List[Any] = []
@@ -183,8 +184,15 @@ class RecvWorld(World):
                 world.emit("KICK", message.task_id)
 
             async def listen(self) -> AsyncGenerator[Union[bytes, AckableMessage], None]:
-                for k in range(n):
+                # the position lives in the world: a worker that calls listen() again after a
+                # broker error continues with the next message
+                while world.next_k < n:
+                    k = world.next_k
                     await world.gate(("deliver", k))
+                    world.next_k = k + 1
+                    if world.msgs[k]["kind"] == "stream_error":
+                        world.emit("STREAM_ERROR", k)
+                        raise ConnectionError("broker connection lost")
                     world.emit("TAKEN", k)
                     yield world.wire[k]
                 if sc.get("stream", "infinite") == "infinite":
@@ -219,20 +227,32 @@ class RecvWorld(World):
         self._install_middlewares(broker, TaskiqMiddleware)
 
         class RecReceiver(Receiver):
-            async def callback(self, message: Any, raise_err: bool = False) -> None:  # type: ignore[override]
+            async def callback(self, *args: Any, **kwargs: Any) -> None:  # type: ignore[override]
+                # observe begin/end of the processing of one message; arguments are forwarded
+                # exactly as the runner passed them (defaults stay those of the real method)
+                message = args[0] if args else kwargs["message"]
                 i = world.msg_index(message)
                 world.emit("CB_B", i)
                 try:
-                    await Receiver.callback(self, message, raise_err)
+                    await Receiver.callback(self, *args, **kwargs)
                 finally:
                     world.emit("CB_E", i)
 
         # wire messages
         self.wire: List[Any] = []
-        self._wire_ids: Dict[int, int] = {}
+        self._wire_ids: Dict[int, List[int]] = {}  # id(payload object) -> indices (the empty bytes object is a singleton)
         for i, m in enumerate(self.msgs):
+            if m["kind"] == "stream_error":
+                self.wire.append(None)
+                continue
             if m["kind"] == "malformed":
-                data = b"\xff{not json %d" % i
+                payload = m.get("payload")
+                if payload == "empty":
+                    data = bytes()  # the empty bytes object is a singleton in CPython
+                elif payload == "sentinel-lookalike":
+                    data = bytes([45, 49])  # equal to b"-1" but a different object
+                else:
+                    data = b"\xff{not json %d" % i
             else:
                 labels = dict(m.get("labels") or {})
                 if m["timeout"] is not None:
@@ -251,7 +271,7 @@ class RecvWorld(World):
             else:
                 obj = AckableMessage(data=data, ack=self._make_ack(i, m["ack"]))
             self.wire.append(obj)
-            self._wire_ids[id(obj)] = i
+            self._wire_ids.setdefault(id(obj), []).append(i)
         self._wire_keep = list(self.wire)
 
         self.executor = FakeExecutor(self)
@@ -357,6 +377,16 @@ class RecvWorld(World):
             async def h(self, message, *rest):  # noqa: ANN001
                 world.emit(ev, world.idx_of(message.task_id), mi, marks(message))
                 return done(message)
+        elif mode == "future":
+            # a plain function that returns a Task (an awaitable that is not a coroutine)
+            def h(self, message, *rest):  # noqa: ANN001
+                async def body() -> Any:
+                    world.emit(ev, world.idx_of(message.task_id), mi, marks(message))
+                    await asyncio.sleep(0)
+                    world.emit(ev + "_E", world.idx_of(message.task_id), mi)
+                    return done(message)
+
+                return asyncio.ensure_future(body())
         else:
             async def h(self, message, *rest):  # noqa: ANN001
                 i = world.idx_of(message.task_id)
@@ -374,11 +404,18 @@ class RecvWorld(World):
                 world.emit("ACK_B", i)
                 world.emit("ACK_E", i)
         else:
-            async def ack() -> None:  # type: ignore[misc]
+            async def ack_coro() -> None:
                 world.emit("ACK_B", i)
                 if "ack" in world.msgs[i]["gates"]:
                     await world.gate(("ack", i))
                 world.emit("ACK_E", i)
+
+            if mode == "future":
+                # a broker whose ack returns a Task/Future (an awaitable that is not a coroutine)
+                def ack() -> Any:  # type: ignore[misc]
+                    return asyncio.ensure_future(ack_coro())
+            else:
+                ack = ack_coro  # type: ignore[assignment]
         return ack
 
     def _on_ret(self) -> None:
@@ -390,10 +427,24 @@ class RecvWorld(World):
         return int(task_id[1:])
 
     def msg_index(self, message: Any) -> int:
-        i = self._wire_ids.get(id(message))
-        if i is None:
+        """Index of the message a callback has just been started for."""
+        cands = self._wire_ids.get(id(message))
+        if not cands:
             raise HarnessError("callback received an object the broker never yielded")
-        return i
+        if len(cands) == 1:
+            return cands[0]
+        # identical payload objects: the one taken earliest that has not begun processing yet
+        begun = set(self.cb_open) | set(self.cb_done)
+        for k in self.taken:
+            if k in cands and k not in begun:
+                return k
+        return cands[0]
+
+    def _index_of_obj(self, v: Any) -> Any:
+        cands = self._wire_ids.get(id(v))
+        if not cands:
+            return None
+        return cands[0] if len(cands) == 1 else tuple(cands)
 
     def res_summary(self, r: Any) -> Any:
         err = r.error
@@ -437,7 +488,7 @@ class RecvWorld(World):
             raise HarnessError(f"unknown event {ev!r}")
 
     def terminal(self) -> bool:
-        return self.listen_task.done()
+        return self.listen_task.done() or self.loop.killed is not None
 
     # ------------------------------------------------------------------ monitors
     def on_event(self, ev: Tuple[Any, ...]) -> None:
@@ -489,8 +540,18 @@ class RecvWorld(World):
             if self.msgs[ev[1]]["kind"] != "valid":
                 self.flag("C01:junk-executed", f"task function invoked for {self.msgs[ev[1]]['kind']} message {ev[1]}")
 
+    def acks_in_flight(self) -> List[int]:
+        out = []
+        for i, log in self.per.items():
+            kinds = [e[0] for e in log]
+            if kinds.count("ACK_B") > kinds.count("ACK_E"):
+                out.append(i)
+        return out
+
     def _check_unfinished(self) -> None:
-        unfinished = len(self.taken) - len(self.cb_done)
+        # a message is finished when its callback has ended and no acknowledgement of it is still in flight
+        done = [k for k in self.cb_done if k not in self.acks_in_flight()]
+        unfinished = len(self.taken) - len(done)
         if unfinished > self.max_unfinished:
             self.max_unfinished = unfinished
         if self.A is not None and unfinished > self.A + self.P + 1:
@@ -500,6 +561,11 @@ class RecvWorld(World):
             )
 
     def check_quiescent(self) -> None:
+        if self.loop.killed is not None and not getattr(self, "_kill_reported", False):
+            self._kill_reported = True
+            why = f"{type(self.loop.killed).__name__} raised by a task escaped from the event loop: the worker stops, messages {[k for k in self.taken if k not in self.cb_done]} are abandoned"
+            for prop in ("C01", "C03", "C05", "C07", "C10"):
+                self.flag(f"{prop}:worker-loop-killed-by-task-exception", why)
         if self.loop.errors:
             for ctx in self.loop.errors:
                 exc = ctx.get("exception")
@@ -561,7 +627,7 @@ class RecvWorld(World):
 
     # ------------------------------------------------------------------ fingerprint support
     def abstract(self, v: Any) -> Any:
-        i = self._wire_ids.get(id(v))
+        i = self._index_of_obj(v)
         if i is not None:
             return ("msg", i)
         from taskiq.message import TaskiqMessage
@@ -587,8 +653,10 @@ class RecvWorld(World):
         coro = task.get_coro()
         frame = getattr(coro, "cr_frame", None)
         if frame is not None and frame.f_code.co_name == "callback":
-            m = frame.f_locals.get("message")
-            i = self._wire_ids.get(id(m))
+            m = frame.f_locals.get("message") or (frame.f_locals.get("args") or (None,))[0] or (frame.f_locals.get("kwargs") or {}).get("message")
+            if "i" in frame.f_locals and isinstance(frame.f_locals["i"], int):
+                return ("callback", frame.f_locals["i"])
+            i = self._index_of_obj(m)
             if i is not None:
                 return ("callback", i)
         return NotImplemented
